@@ -16,7 +16,7 @@ use crate::{
   },
   discovery::{
     discovery::DiscoveryCommand,
-    discovery_db::{discovery_db_read, DiscoveryDB},
+    discovery_db::{discovery_db_read, discovery_db_write, DiscoveryDB},
     sedp_messages::{DiscoveredReaderData, DiscoveredWriterData},
   },
   messages::submessages::submessages::AckSubmessage,
@@ -875,7 +875,21 @@ impl DPEventLoop {
 
     new_reader.set_requested_deadline_check_timer();
     trace!("Add reader: {:?}", new_reader);
+    let topic_name = new_reader.topic_name().clone();
     self.message_receiver.add_reader(new_reader);
+
+    // Discovery may already know remote Writers on this topic. They were
+    // announced before this Reader existed, so match them now.
+    let known_writers = {
+      let mut db = discovery_db_write(&self.discovery_db);
+      db.external_writers_on_topic(&topic_name)
+        .iter()
+        .map(|dwd| db.update_publication(dwd))
+        .collect::<Vec<_>>()
+    };
+    for dwd in &known_writers {
+      self.remote_writer_discovered(dwd);
+    }
   }
 
   fn remove_local_reader(&mut self, reader_guid: GUID) {
@@ -935,7 +949,21 @@ impl DPEventLoop {
       )
       .expect("Writer command channel registration failed!!");
 
+    let topic_name = new_writer.topic_name().clone();
     self.writers.insert(new_writer.guid().entity_id, new_writer);
+
+    // Discovery may already know remote Readers on this topic. They were
+    // announced before this Writer existed, so match them now.
+    let known_readers = {
+      let mut db = discovery_db_write(&self.discovery_db);
+      db.external_readers_on_topic(&topic_name)
+        .iter()
+        .map(|drd| db.update_subscription(drd))
+        .collect::<Vec<_>>()
+    };
+    for drd in &known_readers {
+      self.remote_reader_discovered(drd);
+    }
   }
 
   fn remove_local_writer(&mut self, writer_guid: &GUID) {
